@@ -233,21 +233,72 @@ Proof.
     apply in_combine_zrange in Hin. unfold node_ok, seg_node, zlen; cbn [snd]. lia.
 Qed.
 
-Lemma ibd_records_total c : valid_parts c -> exists out, ibd_records c = Ok out.
+Lemma ibd_records_safe c :
+  0 <= cminspan2 c -> match cmaxtime2 c with Some m => 0 <= m | None => True end ->
+  groups_wf c = true -> length (cflags c) = length (ctimes c) ->
+  forallb (edge_wf (num_nodes c) (cL c)) (cedges c) = true ->
+  exists out, ibd_records c = Ok out.
 Proof.
-  intros V. unfold ibd_records.
-  replace (cminspan2 c <? 0) with false by (symmetry; apply Z.ltb_ge; apply (vp_ms c V)).
+  intros Hms Hmt Hg Hf He. unfold ibd_records.
+  replace (cminspan2 c <? 0) with false by (symmetry; apply Z.ltb_ge; exact Hms).
   replace (neg_opt (cmaxtime2 c)) with false
-    by (pose proof (vp_mt c V) as M; destruct (cmaxtime2 c); simpl; [symmetry; apply Z.ltb_ge; lia | reflexivity]).
-  cbn [orb]. destruct (init_ssid_total c (vp_groups c V)) as (ssid & Hi). rewrite Hi. cbn [bind].
-  pose proof (init_ssid_length c ssid Hi (vp_flags c V)) as Len.
+    by (destruct (cmaxtime2 c); simpl; [symmetry; apply Z.ltb_ge; lia | reflexivity]).
+  cbn [orb]. destruct (init_ssid_total c Hg) as (ssid & Hi). rewrite Hi. cbn [bind].
+  pose proof (init_ssid_length c ssid Hi Hf) as Len.
   assert (Hz : zlen ssid = num_nodes c) by (unfold zlen, num_nodes, zlen; rewrite Len; reflexivity).
   destruct (run_edges_total (num_nodes c) (mkParams (cminspan2 c) (cmaxtime2 c) (is_between c) ssid (ctimes c))
               Hz eq_refl (cedges c) (init_amap (cL c) ssid)) as (A' & out & ->).
   - rewrite <- Hz. apply init_amap_ok.
-  - apply Forall_forall. intros e He. apply (edge_wf_range c e (vp_edges c V) He).
+  - apply Forall_forall. intros e Hin. apply (edge_wf_range c e He Hin).
   - cbn [bind snd]. eauto.
 Qed.
+
+Lemma ibd_records_total c : valid_parts c -> exists out, ibd_records c = Ok out.
+Proof.
+  intros V. apply ibd_records_safe; [apply (vp_ms c V) | apply (vp_mt c V) | apply (vp_groups c V)
+                                    | apply (vp_flags c V) | apply (vp_edges c V)].
+Qed.
+
+(* ---- what is checked on entry vs. what is assumed ---------------------------------------------------- *)
+
+Lemma case_valid_decomposition_lemma c : case_valid c = integrity0 c && sorted_and_tree c && args_ok c.
+Proof.
+  unfold case_valid, integrity0, sorted_and_tree, args_ok.
+  destruct (0 <=? cL c), (length (cflags c) =? length (ctimes c))%nat,
+    (forallb (edge_wf (num_nodes c) (cL c)) (cedges c)),
+    (forallb (valid_atb (ctimes c) (cedges c)) (zrange 0 (Z.to_nat (cL c)))),
+    (sortedb (ctimes c) (cedges c)),
+    (forallb (fun e => time_of (ctimes c) (echild e) <? time_of (ctimes c) (eparent e)) (cedges c)),
+    (groups_wf c), (0 <=? cminspan2 c), (match cmaxtime2 c with Some m => 0 <=? m | None => true end); reflexivity.
+Qed.
+
+(* the entry check alone (tsk_table_collection_check_integrity(self, 0), fix e0eff6d) plus the argument
+   checks make the sweep memory-safe and error-free — sortedness is not needed for that *)
+Lemma integrity_implies_safe_lemma c :
+  integrity0 c = true -> args_ok c = true -> exists out, ibd_records c = Ok out.
+Proof.
+  unfold integrity0, args_ok. intros HI HA.
+  repeat (apply andb_true_iff in HI; destruct HI as [HI ?]).
+  repeat (apply andb_true_iff in HA; destruct HA as [HA ?]).
+  apply ibd_records_safe.
+  - apply Z.leb_le. assumption.
+  - destruct (cmaxtime2 c); [apply Z.leb_le; assumption | exact I].
+  - assumption.
+  - apply Nat.eqb_eq. assumption.
+  - assumption.
+Qed.
+
+(* ... but NOT correct: an integrity-clean table collection whose edges are not sorted by parent time
+   is accepted and silently gives a wrong answer (here: nothing, although samples 0 and 1 share the
+   ancestor 3 over the whole genome).  Replayed on the C code by family ibd_unsorted. *)
+Definition unsorted_case : case :=
+  mkCase 10 [0; 0; 1; 2] [1; 1; 0; 0] [mkE 0 10 3 2; mkE 0 10 2 0; mkE 0 10 3 1] GDefault 0 None.
+
+Lemma unsorted_integrity_clean_refuted_lemma :
+  integrity0 unsorted_case = true /\ args_ok unsorted_case = true /\ sorted_and_tree unsorted_case = false /\
+  ibd_records unsorted_case = Ok [] /\
+  ibd_spec unsorted_case = Ok [((0, 1), [(0, 10, 3)])].
+Proof. vm_compute. repeat split; reflexivity. Qed.
 
 Lemma valid_parts_unfiltered c : valid_parts c -> valid_parts (unfiltered c).
 Proof.
